@@ -533,3 +533,23 @@ func (r *Registry) ConstArray(idx, elem Sort, zero string) string {
 	}
 	return name
 }
+
+// convertStruct rebuilds a value of struct type from as a value of struct type to (identical underlying types,
+// different datatype sorts); other sorts are passed through.
+func (r *Registry) convertStruct(term string, from, to types.Type) string {
+	if r.SortOf(from) == r.SortOf(to) {
+		return term
+	}
+	fs, ts := r.StructInfoOf(from), r.StructInfoOf(to)
+	if fs == nil || ts == nil || len(fs.Fields) != len(ts.Fields) {
+		return term
+	}
+	if len(ts.Fields) == 0 {
+		return ts.Ctor
+	}
+	args := make([]string, len(ts.Fields))
+	for k := range ts.Fields {
+		args[k] = r.convertStruct("("+fs.Fields[k].Acc+" "+term+")", fs.Fields[k].T, ts.Fields[k].T)
+	}
+	return "(" + ts.Ctor + " " + strings.Join(args, " ") + ")"
+}
